@@ -1,0 +1,21 @@
+//go:build verif
+// +build verif
+
+package utils
+
+import (
+	db "github.com/tendermint/tm-db"
+)
+
+// VerifSetDBs replaces the storages' databases (nil keeps the current one).
+func (s *Storage) VerifSetDBs(state, events, snapshot db.DB) {
+	if state != nil {
+		s.stateDB = state
+	}
+	if events != nil {
+		s.eventDB = events
+	}
+	if snapshot != nil {
+		s.snapshotDB = snapshot
+	}
+}
